@@ -4,6 +4,7 @@ package syncutil
 
 import (
 	"context"
+	"errors"
 	"sync"
 	"sync/atomic"
 	"time"
@@ -226,3 +227,35 @@ func VerifC17SemaHold() {
 	verifrt.Assert(atomic.LoadInt32(&acquired)+atomic.LoadInt32(&failed) == 2, "a client neither acquired nor failed")
 	verifrt.Cover("done")
 }
+
+var errC17Cause = errors.New("c17 cause")
+
+// VerifC17SemaCause: contexts of the real context package that are done with
+// an explicit cause (WithCancelCause, also as the parent of a derived
+// context): a blocked Acquire returns ctx.Err(), not the cause.
+func VerifC17SemaCause() {
+	n := verifrt.Len(1)
+	sem := NewChanSemaphore(uint(n))
+	for i := 0; i < n; i++ {
+		verifrt.Assert(sem.Acquire(context.Background()) == nil, "Acquire with a free slot failed")
+	}
+	parent, cancel := context.WithCancelCause(context.Background())
+	var ctx context.Context = parent
+	if verifrt.Bool2() {
+		// a derived context of a user type, as context.Context is usually
+		// embedded
+		ctx = c17Wrap{Context: parent}
+	}
+	if verifrt.Bool2() {
+		cancel(errC17Cause)
+	} else {
+		cancel(nil)
+	}
+	err := sem.Acquire(ctx)
+	verifrt.Assert(err != nil, "Acquire succeeded although no slot is free and the context is done")
+	verifrt.Assert(err == ctx.Err() && err == context.Canceled, "Acquire did not return the context's error")
+	sem.Release()
+	verifrt.Cover("done")
+}
+
+type c17Wrap struct{ context.Context }
